@@ -156,13 +156,13 @@ class Ctx:
         return sb, proof, avk, params, msg, outs
 
 
-def native_stm(query):
+def native_stm(query, *extra):
     import shutil, subprocess
     cdir = os.path.join(core.VERIF, "replay", "stm")
     shutil.copyfile(os.path.join(core.REPO, "Cargo.lock"), os.path.join(cdir, "Cargo.lock"))
     env = dict(os.environ)
     env["CARGO_NET_OFFLINE"] = "true"
-    p = subprocess.run(["cargo", "run", "--offline", "-q", "--target-dir", os.path.join(core.CACHE, "replay-target"), "--", query],
+    p = subprocess.run(["cargo", "run", "--offline", "-q", "--target-dir", os.path.join(core.CACHE, "replay-target"), "--", query] + list(extra),
                        cwd=cdir, env=env, stdout=subprocess.PIPE, stderr=subprocess.PIPE, text=True, timeout=2400)
     if p.returncode != 0:
         raise RuntimeError("native stm replay failed: " + p.stderr[-400:])
